@@ -17,6 +17,8 @@ import httpx
 
 CURRENT_CALL: contextvars.ContextVar[int | None] = contextvars.ContextVar("verif_current_call", default=None)
 
+THREAD_SCHED: Any = None  # set by the world while a group of caller threads runs (sim.threads.ThreadSched)
+
 FAULT_EXC = {
     "connect-error": httpx.ConnectError,
     "read-error": httpx.ReadError,
@@ -101,6 +103,8 @@ class SimTransport(httpx.BaseTransport, httpx.AsyncBaseTransport):
         rec = s._record(request, content, call_id)
         b = s._behaviour(call_id)
         lat = float(b.get("latency") or 0.0)
+        if THREAD_SCHED is not None:
+            THREAD_SCHED.yield_point("wire:0", p=0.5)  # the request is on the wire: another caller thread may run
         if b.get("fault") in FAULT_EXC:
             s.sync_clock += min(lat, 0.01)
             s.events.append(f"fault call={call_id} {b['fault']}")
